@@ -39,12 +39,16 @@ class C12(Prop):
     thorough_runs = 80000
 
     def families(self, tier):
-        return [("session", 3), ("functions", 3), ("malformed", 3)]
+        return [("session", 3), ("functions", 3), ("malformed", 3), ("two-engines", 1)]
 
     def expected_counters(self, tier):
         return ["probe.session-mac-verified", "probe.session-password", "probe.session-master", "probe.session-localized", "probe.fn-master-compared", "probe.fn-localized-compared", "probe.fn-over-1MiB", "probe.fn-engine-id-empty", "probe.malformed-refused", "probe.malformed-accepted", "probe.raw-socket-ctor", "probe.set-keys"]
 
     def gen(self, rng, family, tier):
+        if family == "two-engines":
+            p = v3common.two_engine_plan(rng, tier, ["md5", "sha", "md5-des", "sha-aes", "md5-aes", "sha-des"])
+            p["kind"] = "session"
+            return p
         if family == "session":
             level = rng.choice(["md5", "sha", "md5-des", "md5-aes", "sha-des", "sha-aes"])
             # auth and priv key types are chosen independently (gen.user draws one per key)
@@ -142,9 +146,9 @@ class C12(Prop):
         out = []
         plan = run.plan
         if plan.get("kind") == "session":
-            cfg = run.sess_cfg[0]
-            run.sim.count("probe.session-" + cfg["user"]["auth"]["type"])
+            run.sim.count("probe.session-" + run.sess_cfg[0]["user"]["auth"]["type"])
             for s, res, n, ex, dec, raw, exp, deferred, tr in v3common.iter_v3_tx(run):
+                cfg = run.sess_cfg[s]
                 if not dec.get("m"):
                     out.append(V("C12.not-decodable", str(dec.get("error"))))
                     continue
